@@ -1,7 +1,822 @@
-//! C11 — stub (monitor not built yet)
-use crate::run::{Ctx, Report, Stats};
-pub fn run(_ctx: &Ctx) -> Report {
-    let mut r = Report::new(Stats::default(), "not built");
-    r.inconclusive.push("monitor-not-built".into());
-    r
+//! C11 — polynomial arithmetic, evaluation and differentiation obey ring and calculus laws.
+//!
+//! The real generic `ohsl::Polynomial<T>` is instantiated at four element types:
+//!   * `Rat`  (exact rationals)            — model field `Rat`
+//!   * `CRat` (exact complex rationals)    — model field `CRat`
+//!   * `f64`  (small integer / dyadic data) — model field `Rat`
+//!   * `Complex<f64>` (Gaussian integer / dyadic data) — model field `CRat`
+//! and every observable result (coefficients through the index operator, `size()`, `degree()`,
+//! `eval()`, `is_zero()`, `trim()`) is compared for EXACT equality with an independently coded
+//! coefficient-list model (gather convolution, falling-factorial derivative, power-sum evaluation).
+//!
+//! Float types: a check is judged only when an a-priori *exactness certificate* holds, namely
+//! (1-norm mass bound of every intermediate quantity) x (common dyadic grid of the data) <= 2^52,
+//! computed from the generated inputs alone. Under the certificate every floating-point operation
+//! the library can perform on the data is exact, so exact equality is the right demand and there is
+//! no tolerance anywhere in this monitor.
+//!
+//! Undefined by the property (accepted whatever happens, but a *returned* value must still be a
+//! zero): `eval`/`derivative`/`derivative_at`/`trim` on the empty polynomial, `derivative_at` of
+//! order deg+1 (evaluates the empty polynomial), `degree()` of the empty polynomial.
+use crate::json::J;
+use crate::mon::common::*;
+use crate::rat::{CRat, Exact, Rat};
+use crate::rng::Rng;
+use crate::run::{catch, par_run, Ctx, Outcome, Report, Stats};
+use ohsl::{Cmplx, Number, Polynomial, Signed, Zero};
+use std::fmt::Debug;
+use std::marker::PhantomData;
+
+const TAG: u64 = 0xC11;
+/// exactness certificate limit for the float instantiations (2^52; f64 integers are exact to 2^53)
+const LIMIT: f64 = 4503599627370496.0;
+const MAXLEN: usize = 9; // lengths 0..=9  <=> empty and degrees 0..8
+const NPOINTS: usize = 5;
+
+// ---------------------------------------------------------------------------------------------
+// model field helpers
+// ---------------------------------------------------------------------------------------------
+
+fn gcd_i(mut a: i128, mut b: i128) -> i128 {
+    if a < 0 { a = -a; }
+    if b < 0 { b = -b; }
+    while b != 0 { let t = a % b; a = b; b = t; }
+    a
+}
+
+/// Model field: `Rat` or `CRat`, with a 1-norm magnitude and the denominator grid (as f64, used
+/// only for the float exactness certificate, never for a verdict on values).
+trait MF: Exact {
+    fn n1(&self) -> f64;
+    fn den(&self) -> f64;
+    fn parts(re: Rat, im: Rat) -> Self { Self::from_parts(re, im) }
+}
+impl MF for Rat {
+    fn n1(&self) -> f64 { self.to_f64().abs() }
+    fn den(&self) -> f64 { self.d as f64 }
+}
+impl MF for CRat {
+    fn n1(&self) -> f64 { self.re.to_f64().abs() + self.im.to_f64().abs() }
+    fn den(&self) -> f64 {
+        let g = gcd_i(self.re.d, self.im.d).max(1);
+        (self.re.d / g) as f64 * self.im.d as f64
+    }
+}
+
+/// Library element type under test together with its exact model field.
+trait Elem: Copy + Number + Signed + Debug + 'static {
+    type M: MF;
+    const NAME: &'static str;
+    const FLOAT: bool;
+    const K_BOUND: &'static str;
+    const K_UNCERT: &'static str;
+    const K_LENPAIRS: &'static str;
+    /// exact embedding of a model value (None when not exactly representable)
+    fn from_m(m: &Self::M) -> Option<Self>;
+}
+impl Elem for Rat {
+    type M = Rat;
+    const NAME: &'static str = "Rat";
+    const FLOAT: bool = false;
+    const K_BOUND: &'static str = "Rat:unused";
+    const K_UNCERT: &'static str = "Rat:unused";
+    const K_LENPAIRS: &'static str = "length_pairs:Rat";
+    fn from_m(m: &Rat) -> Option<Rat> { Some(*m) }
+}
+impl Elem for CRat {
+    type M = CRat;
+    const NAME: &'static str = "CRat";
+    const FLOAT: bool = false;
+    const K_BOUND: &'static str = "CRat:unused";
+    const K_UNCERT: &'static str = "CRat:unused";
+    const K_LENPAIRS: &'static str = "length_pairs:CRat";
+    fn from_m(m: &CRat) -> Option<CRat> { Some(*m) }
+}
+impl Elem for f64 {
+    type M = Rat;
+    const NAME: &'static str = "f64";
+    const FLOAT: bool = true;
+    const K_BOUND: &'static str = "f64:max_certified_bound_over_2^52";
+    const K_UNCERT: &'static str = "skipped-check:f64:exactness-not-certified";
+    const K_LENPAIRS: &'static str = "length_pairs:f64";
+    fn from_m(m: &Rat) -> Option<f64> { m.as_exact_f64() }
+}
+impl Elem for Cmplx {
+    type M = CRat;
+    const NAME: &'static str = "Cmplx";
+    const FLOAT: bool = true;
+    const K_BOUND: &'static str = "Cmplx:max_certified_bound_over_2^52";
+    const K_UNCERT: &'static str = "skipped-check:Cmplx:exactness-not-certified";
+    const K_LENPAIRS: &'static str = "length_pairs:Cmplx";
+    fn from_m(m: &CRat) -> Option<Cmplx> { Some(Cmplx::new(m.re.as_exact_f64()?, m.im.as_exact_f64()?)) }
+}
+
+// ---------------------------------------------------------------------------------------------
+// independent coefficient-list model (index i <-> coefficient of x^i; the empty list is zero)
+// ---------------------------------------------------------------------------------------------
+
+fn at<M: MF>(p: &[M], i: usize) -> M { if i < p.len() { p[i] } else { M::zero() } }
+
+fn m_add<M: MF>(a: &[M], b: &[M]) -> Vec<M> { (0..a.len().max(b.len())).map(|i| at(a, i) + at(b, i)).collect() }
+fn m_sub<M: MF>(a: &[M], b: &[M]) -> Vec<M> { (0..a.len().max(b.len())).map(|i| at(a, i) - at(b, i)).collect() }
+fn m_neg<M: MF>(a: &[M]) -> Vec<M> { a.iter().map(|v| M::zero() - *v).collect() }
+fn m_scal<M: MF>(a: &[M], s: M) -> Vec<M> { a.iter().map(|v| s * *v).collect() }
+/// gather-form convolution: c_k = sum_{i+j=k} a_i b_j ; an empty factor gives the empty (zero) list
+fn m_mul<M: MF>(a: &[M], b: &[M]) -> Vec<M> {
+    if a.is_empty() || b.is_empty() { return vec![]; }
+    let n = a.len() + b.len() - 1;
+    let mut c = Vec::with_capacity(n);
+    for k in 0..n {
+        let lo = if k + 1 > b.len() { k + 1 - b.len() } else { 0 };
+        let hi = k.min(a.len() - 1);
+        let mut acc = M::zero();
+        for i in lo..=hi { acc = acc + a[i] * b[k - i]; }
+        c.push(acc);
+    }
+    c
+}
+/// falling factorial (i+k)(i+k-1)...(i+1) as a model value
+fn ffact<M: MF>(i: usize, k: usize) -> M {
+    let mut f = M::one();
+    for t in 1..=k { f = f * M::from_int((i + t) as i64); }
+    f
+}
+/// k-th derivative by the closed formula q_i = (i+k)!/i! p_{i+k}; order >= length gives the empty list
+fn m_der<M: MF>(p: &[M], k: usize) -> Vec<M> {
+    if k >= p.len() { return vec![]; }
+    (0..p.len() - k).map(|i| ffact::<M>(i, k) * p[i + k]).collect()
+}
+/// evaluation by explicit powers (not Horner)
+fn m_eval<M: MF>(p: &[M], x: M) -> M {
+    let mut pw = M::one();
+    let mut acc = M::zero();
+    for (i, c) in p.iter().enumerate() {
+        if i > 0 { pw = pw * x; }
+        acc = acc + *c * pw;
+    }
+    acc
+}
+fn m_trim<M: MF>(p: &[M]) -> Vec<M> {
+    let mut v = p.to_vec();
+    while v.len() > 1 && v[v.len() - 1].is_zero_e() { v.pop(); }
+    v
+}
+fn m_all_zero<M: MF>(p: &[M]) -> bool { p.iter().all(|v| v.is_zero_e()) }
+
+fn mass<M: MF>(p: &[M]) -> f64 { p.iter().map(|v| v.n1()).sum::<f64>() }
+/// derivative multiplier bound: largest falling factorial appearing in the k-th derivative of a length-n list
+fn ffbound(n: usize, k: usize) -> f64 {
+    if n == 0 || k >= n { return 1.0; }
+    let mut f = 1.0;
+    for t in 0..k { f *= (n - 1 - t) as f64; }
+    f
+}
+
+// ---------------------------------------------------------------------------------------------
+// one generated case (in model space)
+// ---------------------------------------------------------------------------------------------
+
+#[derive(Clone)]
+struct Case<M> {
+    a: Vec<M>,
+    b: Vec<M>,
+    c: Vec<M>,
+    s: M,
+    xs: Vec<M>,
+}
+
+impl<M: MF> Case<M> {
+    fn hash(&self, h0: u64) -> u64 {
+        let mut h = h0;
+        for (k, l) in [&self.a, &self.b, &self.c].iter().enumerate() {
+            h = hmix(h, 0x100 + k as u64 + ((l.len() as u64) << 8));
+            for v in l.iter() { h = hmix(h, v.hash_u64()); }
+        }
+        h = hmix(h, self.s.hash_u64());
+        for v in &self.xs { h = hmix(h, v.hash_u64()); }
+        h
+    }
+    /// common denominator grid of all coefficients and the scalar (f64, certificate only)
+    fn coeff_grid(&self) -> f64 {
+        let mut g = 1.0f64;
+        for v in self.a.iter().chain(self.b.iter()).chain(self.c.iter()).chain(std::iter::once(&self.s)) {
+            g = g.max(v.den());
+        }
+        g
+    }
+}
+
+// ---------------------------------------------------------------------------------------------
+// oracle context
+// ---------------------------------------------------------------------------------------------
+
+#[derive(Clone, Copy, PartialEq)]
+enum Mode {
+    /// coefficient list must equal the model list exactly (same length, same values)
+    Strict,
+    /// any representation of the zero polynomial (empty or all-zero list of any length)
+    ZeroAny,
+}
+
+struct Cx<'a, T: Elem> {
+    st: &'a mut Stats,
+    desc: &'a dyn Fn() -> String,
+    /// (coefficient grid)^4 — multiplies every float certificate bound
+    gfac: f64,
+    _t: PhantomData<T>,
+}
+
+fn padded_eq<T: Elem>(a: &[T], b: &[T]) -> bool {
+    let n = a.len().max(b.len());
+    (0..n).all(|i| {
+        let x = if i < a.len() { a[i] } else { T::zero() };
+        let y = if i < b.len() { b[i] } else { T::zero() };
+        x == y
+    })
+}
+
+impl<'a, T: Elem> Cx<'a, T> {
+    fn sig(site: &str, mode: &str) -> String { format!("C11:{}:{}:{}", site, T::NAME, mode) }
+
+    /// float exactness certificate; exact types are always certified
+    fn certified(&mut self, bound: f64) -> bool {
+        if !T::FLOAT { return true; }
+        let b = bound * self.gfac;
+        if b <= LIMIT {
+            self.st.max(T::K_BOUND, b / LIMIT);
+            true
+        } else {
+            self.st.count(T::K_UNCERT);
+            false
+        }
+    }
+
+    fn conv(&mut self, want: &[T::M]) -> Option<Vec<T>> {
+        let r: Option<Vec<T>> = want.iter().map(|m| T::from_m(m)).collect();
+        if r.is_none() { self.st.count("skipped-check:model-value-not-representable"); }
+        r
+    }
+
+    /// observe a polynomial through size(), the index operator and degree()
+    fn observe(&mut self, site: &str, p: &Polynomial<T>) -> Option<Vec<T>> {
+        let n = match catch(|| p.size()) { Outcome::Ok(n) => n, _ => return None };
+        match catch(|| (0..n).map(|i| p[i]).collect::<Vec<T>>()) {
+            Outcome::Ok(v) => {
+                match catch(|| p.degree()) {
+                    Outcome::Ok(d) => {
+                        if n > 0 && d != Ok(n - 1) {
+                            self.st.violation(&Self::sig(site, "degree-mismatch"),
+                                format!("{}: result has size {} but degree() = {:?}; {}", site, n, d, (self.desc)()));
+                        }
+                        if n == 0 { self.st.set_insert("degree_of_empty", format!("{:?}", d.is_ok())); }
+                    }
+                    other => {
+                        if n > 0 {
+                            self.st.violation(&Self::sig(site, "degree-refused"),
+                                format!("{}: degree() {} on a size-{} polynomial; {}", site, other.describe(), n, (self.desc)()));
+                        }
+                    }
+                }
+                Some(v)
+            }
+            Outcome::Overflow => None,
+            other => {
+                self.st.violation(&Self::sig(site, "index-refused"),
+                    format!("{}: reading coefficients 0..{} of the result {}; {}", site, n, other.describe(), (self.desc)()));
+                None
+            }
+        }
+    }
+
+    /// Judge a polynomial-valued library call where the property demands success.
+    fn poly(&mut self, site: &str, out: Outcome<Polynomial<T>>, want: &[T::M], mode: Mode, bound: f64) -> Option<Polynomial<T>> {
+        self.st.eval();
+        match out {
+            Outcome::Ok(p) => {
+                if !self.certified(bound) { return Some(p); }
+                let got = self.observe(site, &p)?;
+                let want_t = match self.conv(want) { Some(w) => w, None => return Some(p) };
+                let ok = match mode {
+                    Mode::Strict => got == want_t,
+                    Mode::ZeroAny => got.iter().all(|v| *v == T::zero()),
+                };
+                if !ok {
+                    let kind = if mode == Mode::Strict && padded_eq(&got, &want_t) { "wrong-size" } else { "wrong-value" };
+                    let exp = if mode == Mode::ZeroAny { "a zero polynomial".to_string() } else { format!("{:?}", want) };
+                    self.st.violation(&Self::sig(site, kind),
+                        format!("{} returned coefficients {:?} but the exact result is {}; {}", site, got, exp, (self.desc)()));
+                }
+                Some(p)
+            }
+            Outcome::Overflow => { self.st.count("skipped-check:rat-overflow-in-library"); None }
+            other => {
+                self.st.violation(&Self::sig(site, "refused"),
+                    format!("{} {} where the exact result is {:?}; {}", site, other.describe(), want, (self.desc)()));
+                None
+            }
+        }
+    }
+
+    /// Polynomial-valued call on an input for which the property leaves the behaviour undefined
+    /// (empty operand of eval/derivative/trim): any refusal is accepted; a returned value must be zero.
+    fn poly_undef(&mut self, site: &str, out: Outcome<Polynomial<T>>) {
+        self.st.eval();
+        match out {
+            Outcome::Ok(p) => {
+                self.st.count("undefined-input:returned");
+                if let Some(got) = self.observe(site, &p) {
+                    if !got.iter().all(|v| *v == T::zero()) {
+                        self.st.violation(&Self::sig(site, "empty-not-zero"),
+                            format!("{} on the empty polynomial returned non-zero coefficients {:?}; {}", site, got, (self.desc)()));
+                    }
+                }
+            }
+            Outcome::Overflow => self.st.count("skipped-check:rat-overflow-in-library"),
+            _ => self.st.count("undefined-input:refused(accepted)"),
+        }
+    }
+
+    /// Judge a scalar-valued library call where the property demands success.
+    fn val(&mut self, site: &str, out: Outcome<T>, want: &T::M, bound: f64) {
+        self.st.eval();
+        match out {
+            Outcome::Ok(v) => {
+                if !self.certified(bound) { return; }
+                let w = match T::from_m(want) { Some(w) => w, None => { self.st.count("skipped-check:model-value-not-representable"); return; } };
+                if !(v == w) {
+                    self.st.violation(&Self::sig(site, "wrong-value"),
+                        format!("{} returned {:?} but the exact value is {:?}; {}", site, v, want, (self.desc)()));
+                }
+            }
+            Outcome::Overflow => self.st.count("skipped-check:rat-overflow-in-library"),
+            other => {
+                self.st.violation(&Self::sig(site, "refused"),
+                    format!("{} {} where the exact value is {:?}; {}", site, other.describe(), want, (self.desc)()));
+            }
+        }
+    }
+
+    /// Scalar-valued call that evaluates the empty polynomial: refusal accepted, a returned value must be zero.
+    fn val_undef(&mut self, site: &str, out: Outcome<T>) {
+        self.st.eval();
+        match out {
+            Outcome::Ok(v) => {
+                self.st.count("undefined-input:returned");
+                if !(v == T::zero()) {
+                    self.st.violation(&Self::sig(site, "empty-not-zero"),
+                        format!("{} evaluated the empty polynomial to {:?} (it must act as zero); {}", site, v, (self.desc)()));
+                }
+            }
+            Outcome::Overflow => self.st.count("skipped-check:rat-overflow-in-library"),
+            _ => self.st.count("undefined-input:refused(accepted)"),
+        }
+    }
+
+    /// value of a result polynomial at x: equals `want` (the same combination of the operands' exact
+    /// values); when the library's result is the empty polynomial, eval is undefined (see val_undef).
+    fn value_at(&mut self, site: &str, p: &Polynomial<T>, x: T, want: &T::M, bound: f64) {
+        if p.size() == 0 { self.val_undef(site, catch(|| p.eval(x))); }
+        else { self.val(site, catch(|| p.eval(x)), want, bound); }
+    }
+
+    fn flag(&mut self, site: &str, out: Outcome<bool>, want: bool) {
+        self.st.eval();
+        match out {
+            Outcome::Ok(v) => {
+                if v != want {
+                    self.st.violation(&Self::sig(site, "wrong-value"), format!("{} returned {} but must be {}; {}", site, v, want, (self.desc)()));
+                }
+            }
+            Outcome::Overflow => self.st.count("skipped-check:rat-overflow-in-library"),
+            other => {
+                self.st.violation(&Self::sig(site, "refused"), format!("{} {}; {}", site, other.describe(), (self.desc)()));
+            }
+        }
+    }
+}
+
+/// x-dependent certificate factor: (max(1,|x|_1) * denominator grid of x)^d
+fn xpow<M: MF>(x: &M, d: usize) -> f64 { (x.n1().max(1.0) * x.den()).powi(d as i32) }
+
+// ---------------------------------------------------------------------------------------------
+// the judge
+// ---------------------------------------------------------------------------------------------
+
+/// everything that involves a single polynomial `pm` (model list) / `pt` (library element list)
+fn unary<T: Elem>(cx: &mut Cx<T>, pm: &[T::M], pt: &[T], sm: T::M, s: T, xm: &[T::M], xt: &[T]) {
+    let n = pm.len();
+    let ms = mass(pm).max(1.0);
+    let p = Polynomial::new(pt.to_vec());
+
+    // construction, size, index, degree, clone, coeffs()
+    cx.poly("new", Outcome::Ok(Polynomial::new(pt.to_vec())), pm, Mode::Strict, ms);
+    cx.poly("clone", catch(|| p.clone()), pm, Mode::Strict, ms);
+    cx.poly("coeffs", catch(|| { let mut q = p.clone(); let v = q.coeffs().clone(); Polynomial::new(v) }), pm, Mode::Strict, ms);
+    cx.flag("is_zero", catch(|| p.is_zero()), m_all_zero(pm));
+    if n == 0 {
+        cx.poly("empty", Outcome::Ok(Polynomial::<T>::empty()), pm, Mode::Strict, ms);
+    }
+
+    // evaluation (Horner in the library, explicit powers in the model)
+    for (x, xq) in xt.iter().zip(xm) {
+        if n == 0 { cx.val_undef("eval", catch(|| p.eval(*x))); }
+        else { cx.val("eval", catch(|| p.eval(*x)), &m_eval(pm, *xq), ms * xpow(xq, n - 1)); }
+    }
+
+    // negation and scalar multiple, borrowed and owned
+    let wneg = m_neg(pm);
+    let neg = cx.poly("neg", catch(|| -&p), &wneg, Mode::Strict, ms);
+    cx.poly("neg-owned", catch(|| -(p.clone())), &wneg, Mode::Strict, ms);
+    let wsc = m_scal(pm, sm);
+    let sb = ms * sm.n1().max(1.0);
+    let sc = cx.poly("scalar", catch(|| &p * s), &wsc, Mode::Strict, sb);
+    cx.poly("scalar-owned", catch(|| p.clone() * s), &wsc, Mode::Strict, sb);
+    for (x, xq) in xt.iter().zip(xm) {
+        let v = m_eval(pm, *xq);
+        if let Some(q) = &neg { cx.value_at("value:neg", q, *x, &(T::M::zero() - v), ms * xpow(xq, n.max(1) - 1)); }
+        if let Some(q) = &sc { cx.value_at("value:scalar", q, *x, &(sm * v), sb * xpow(xq, n.max(1) - 1)); }
+    }
+
+    // differentiation
+    if n == 0 {
+        cx.poly_undef("derivative", catch(|| p.derivative()));
+        cx.poly("derivative_n", catch(|| p.derivative_n(0)), pm, Mode::Strict, ms);
+        cx.poly_undef("derivative_n", catch(|| p.derivative_n(1)));
+        cx.val_undef("derivative_at", catch(|| p.derivative_at(xt[0], 0)));
+    } else {
+        let d1 = m_der(pm, 1);
+        let dp = cx.poly("derivative", catch(|| p.derivative()), &d1, if n == 1 { Mode::ZeroAny } else { Mode::Strict }, ms * ffbound(n, 1));
+        // derivative values at the points (value of p' from the model)
+        if let Some(dp) = &dp {
+            for (x, xq) in xt.iter().zip(xm) {
+                cx.value_at("value:derivative", dp, *x, &m_eval(&d1, *xq), ms * ffbound(n, 1) * xpow(xq, n.max(2) - 2));
+            }
+        }
+        for k in 0..=n {
+            let dk = m_der(pm, k);
+            let fb = ms * ffbound(n, k);
+            cx.poly("derivative_n", catch(|| p.derivative_n(k)), &dk, if k >= n { Mode::ZeroAny } else { Mode::Strict }, fb);
+            for j in 0..2.min(xt.len()) {
+                if k < n {
+                    cx.val("derivative_at", catch(|| p.derivative_at(xt[j], k)), &m_eval(&dk, xm[j]), fb * xpow(&xm[j], n - 1 - k));
+                } else {
+                    // order deg+1: the library evaluates the empty polynomial (undefined); a returned value must be 0
+                    cx.val_undef("derivative_at", catch(|| p.derivative_at(xt[j], k)));
+                }
+            }
+        }
+    }
+
+    // trim
+    if n == 0 {
+        cx.poly_undef("trim", catch(|| { let mut q = p.clone(); q.trim(); q }));
+    } else {
+        cx.poly("trim", catch(|| { let mut q = p.clone(); q.trim(); q }), &m_trim(pm), Mode::Strict, ms);
+    }
+
+    // named constructors: quadratic(a,b,c) = a x^2 + b x + c ; cubic(a,b,c,d) = a x^3 + b x^2 + c x + d
+    if n >= 3 {
+        let q = cx.poly("quadratic", catch(|| Polynomial::quadratic(pt[2], pt[1], pt[0])), &pm[0..3], Mode::Strict, ms);
+        if let Some(q) = q {
+            let xq = xm[xm.len() - 1];
+            let w = pm[2] * xq * xq + pm[1] * xq + pm[0];
+            cx.value_at("value:quadratic", &q, xt[xt.len() - 1], &w, ms * xpow(&xq, 2));
+        }
+    }
+    if n >= 4 {
+        let q = cx.poly("cubic", catch(|| Polynomial::cubic(pt[3], pt[2], pt[1], pt[0])), &pm[0..4], Mode::Strict, ms);
+        if let Some(q) = q {
+            let xq = xm[xm.len() - 1];
+            let w = pm[3] * xq * xq * xq + pm[2] * xq * xq + pm[1] * xq + pm[0];
+            cx.value_at("value:cubic", &q, xt[xt.len() - 1], &w, ms * xpow(&xq, 3));
+        }
+    }
+}
+
+fn judge_inner<T: Elem>(st: &mut Stats, class: &str, cs: &Case<T::M>) {
+    let desc = || format!("T={} class={} a={:?} b={:?} c={:?} s={:?} xs={:?}", T::NAME, class, cs.a, cs.b, cs.c, cs.s, cs.xs);
+    // embed the inputs into the library element type (exact or not at all)
+    let emb = |l: &[T::M]| -> Option<Vec<T>> { l.iter().map(|m| T::from_m(m)).collect() };
+    let (a, b, c, xs, s) = match (emb(&cs.a), emb(&cs.b), emb(&cs.c), emb(&cs.xs), T::from_m(&cs.s)) {
+        (Some(a), Some(b), Some(c), Some(x), Some(s)) => (a, b, c, x, s),
+        _ => { st.count("skipped:inputs-not-representable"); return; }
+    };
+    let g = cs.coeff_grid();
+    let mut cx = Cx::<T> { st, desc: &desc, gfac: g * g * g * g, _t: PhantomData };
+    let (am, bm, cm, sm, xm) = (&cs.a[..], &cs.b[..], &cs.c[..], cs.s, &cs.xs[..]);
+    let (la, lb, lc) = (am.len(), bm.len(), cm.len());
+    let (ma, mb, mc) = (mass(am).max(1.0), mass(bm).max(1.0), mass(cm).max(1.0));
+    let msc = sm.n1().max(1.0);
+
+    unary(&mut cx, am, &a, sm, s, xm, &xs);
+    unary(&mut cx, bm, &b, sm, s, xm, &xs);
+
+    let pa = Polynomial::new(a.clone());
+    let pb = Polynomial::new(b.clone());
+    let pc = Polynomial::new(c.clone());
+
+    // ---- sum, difference, product: borrowed, owned, commuted ----
+    let wadd = m_add(am, bm);
+    let wsub = m_sub(am, bm);
+    let wmul = m_mul(am, bm);
+    let mulmode = if la == 0 || lb == 0 { Mode::ZeroAny } else { Mode::Strict };
+    let sum = cx.poly("add", catch(|| &pa + &pb), &wadd, Mode::Strict, ma + mb);
+    cx.poly("add-owned", catch(|| pa.clone() + pb.clone()), &wadd, Mode::Strict, ma + mb);
+    cx.poly("add", catch(|| &pb + &pa), &wadd, Mode::Strict, ma + mb);
+    let dif = cx.poly("sub", catch(|| &pa - &pb), &wsub, Mode::Strict, ma + mb);
+    cx.poly("sub-owned", catch(|| pa.clone() - pb.clone()), &wsub, Mode::Strict, ma + mb);
+    cx.poly("sub", catch(|| &pb - &pa), &m_neg(&wsub), Mode::Strict, ma + mb);
+    let prd = cx.poly("mul", catch(|| &pa * &pb), &wmul, mulmode, ma * mb);
+    cx.poly("mul-owned", catch(|| pa.clone() * pb.clone()), &wmul, mulmode, ma * mb);
+    cx.poly("mul", catch(|| &pb * &pa), &wmul, mulmode, ma * mb);
+
+    // ---- values of the results = the same combination of the operands' values ----
+    let lmax = la.max(lb);
+    for (x, xq) in xs.iter().zip(xm) {
+        let (va, vb) = (m_eval(am, *xq), m_eval(bm, *xq));
+        if let Some(p) = &sum { cx.value_at("value:add", p, *x, &(va + vb), (ma + mb) * xpow(xq, lmax.max(1) - 1)); }
+        if let Some(p) = &dif { cx.value_at("value:sub", p, *x, &(va - vb), (ma + mb) * xpow(xq, lmax.max(1) - 1)); }
+        if let Some(p) = &prd { cx.value_at("value:mul", p, *x, &(va * vb), ma * mb * xpow(xq, (la + lb).max(2) - 2)); }
+    }
+
+    // ---- linearity of the derivative: D(s a + b) = s D(a) + D(b) ----
+    if lmax >= 1 {
+        let wl = m_der(&m_add(&m_scal(am, sm), bm), 1);
+        let mode = if lmax == 1 { Mode::ZeroAny } else { Mode::Strict };
+        let bound = (msc * ma + mb) * lmax as f64;
+        cx.poly("law:linearity-lhs", catch(|| (&(&pa * s) + &pb).derivative()), &wl, mode, bound);
+        if la >= 1 && lb >= 1 {
+            cx.poly("law:linearity-rhs", catch(|| &(&pa.derivative() * s) + &pb.derivative()), &wl, mode, bound);
+        }
+    }
+
+    // ---- product rule: D(a b) = D(a) b + a D(b), as coefficients and as values ----
+    if la >= 1 && lb >= 1 {
+        let wp = m_der(&wmul, 1);
+        let mode = if la + lb == 2 { Mode::ZeroAny } else { Mode::Strict };
+        let bound = ma * mb * (la + lb) as f64;
+        cx.poly("law:product-rule-lhs", catch(|| (&pa * &pb).derivative()), &wp, mode, bound);
+        cx.poly("law:product-rule-rhs", catch(|| &(&pa.derivative() * &pb) + &(&pa * &pb.derivative())), &wp, mode, bound);
+        if la + lb >= 3 {
+            if let Some(p) = &prd {
+                for j in 0..2.min(xs.len()) {
+                    let xq = xm[j];
+                    let w = m_eval(&m_der(am, 1), xq) * m_eval(bm, xq) + m_eval(am, xq) * m_eval(&m_der(bm, 1), xq);
+                    cx.val("value:product-rule", catch(|| p.derivative_at(xs[j], 1)), &w, bound * xpow(&xq, la + lb - 3));
+                }
+            }
+        }
+    }
+
+    // ---- ring laws through composed library calls ----
+    {
+        // distributivity (a + b) c = a c + b c
+        let wd = m_mul(&wadd, cm);
+        let mode = if wd.is_empty() { Mode::ZeroAny } else { Mode::Strict };
+        let bound = (ma + mb) * mc;
+        cx.poly("law:distributive-lhs", catch(|| &(&pa + &pb) * &pc), &wd, mode, bound);
+        cx.poly("law:distributive-rhs", catch(|| &(&pa * &pc) + &(&pb * &pc)), &wd, mode, bound);
+        // associativity (a b) c = a (b c)
+        let wa = m_mul(&wmul, cm);
+        let mode = if wa.is_empty() { Mode::ZeroAny } else { Mode::Strict };
+        let bound = ma * mb * mc;
+        let t1 = cx.poly("law:associative-lhs", catch(|| &(&pa * &pb) * &pc), &wa, mode, bound);
+        cx.poly("law:associative-rhs", catch(|| &pa * &(&pb * &pc)), &wa, mode, bound);
+        if let Some(t1) = &t1 {
+            let xq = xm[0];
+            let w = m_eval(am, xq) * m_eval(bm, xq) * m_eval(cm, xq);
+            cx.value_at("value:triple-product", t1, xs[0], &w, bound * xpow(&xq, (la + lb + lc).max(3) - 3));
+        }
+        // cancellation (a - b) + b = a (padded to the longer length), a - a = 0, a + (-a) = 0
+        let wc = m_add(&wsub, bm);
+        cx.poly("law:cancel", catch(|| &(&pa - &pb) + &pb), &wc, Mode::Strict, ma + 2.0 * mb);
+        let z: Vec<T::M> = vec![T::M::zero(); la];
+        cx.poly("law:self-difference", catch(|| &pa - &pa), &z, Mode::Strict, 2.0 * ma);
+        cx.poly("law:additive-inverse", catch(|| &pa + &(-&pa)), &z, Mode::Strict, 2.0 * ma);
+        // scalar multiple agrees with multiplication by the constant polynomial [s] (sizes agree when a is non-empty)
+        if la >= 1 {
+            cx.poly("law:scalar-as-constant", catch(|| &pa * &Polynomial::new(vec![s])), &m_scal(am, sm), Mode::Strict, ma * msc);
+        }
+    }
+
+    // ---- bookkeeping ----
+    cx.st.set_insert(T::K_LENPAIRS, format!("{},{}", la, lb));
+    let nontrivial = la >= 1 && lb >= 1 && la.max(lb) >= 2 && !(m_all_zero(am) && m_all_zero(bm));
+    if nontrivial {
+        cx.st.nontrivial(cs.hash(hash_str(T::NAME)));
+        cx.st.count(if T::FLOAT { "cases:nontrivial:float" } else { "cases:nontrivial:exact" });
+    } else {
+        cx.st.count("cases:degenerate(empty/constant/zero operands)");
+    }
+    cx.st.sample(|| desc());
+}
+
+/// Run one case; exact-arithmetic overflow in the model skips the rest of the case, a panic in the
+/// harness's own code is recorded as a harness error (=> inconclusive), never as a violation.
+fn judge<T: Elem>(st: &mut Stats, class: &str, cs: &Case<T::M>) {
+    st.next_case();
+    let r = catch(|| judge_inner::<T>(&mut *st, class, cs));
+    match r {
+        Outcome::Ok(()) => {}
+        Outcome::Overflow => st.count("skipped:rat-overflow-in-model"),
+        other => {
+            if st.harness_errors.len() < 5 {
+                let msg = format!("C11 judge<{}>: harness {} (unit {} case {})", T::NAME, other.describe(), st.unit, st.case);
+                st.harness_errors.push(msg);
+            }
+        }
+    }
+}
+
+// ---------------------------------------------------------------------------------------------
+// generators
+// ---------------------------------------------------------------------------------------------
+
+/// coefficient styles. Exact types use 0..=5, float types use 6..=9 (integers / half-integers only).
+fn gen_rat(rng: &mut Rng, style: u32) -> Rat {
+    match style {
+        0 => Rat::int(rng.int(-9, 9)),
+        1 => Rat::new(rng.int(-12, 12) as i128, rng.int(1, 6) as i128),
+        2 => if rng.chance(0.6) { Rat::ZERO } else { Rat::int(rng.nzint(9)) },
+        3 => Rat::int(if rng.bool() { 1 } else { -1 }),
+        4 => Rat::new(rng.int(-1_000_000_000, 1_000_000_000) as i128, rng.int(1, 3) as i128),
+        5 => Rat::new(rng.nzint(7) as i128, 1i128 << rng.int(0, 3)),
+        6 => Rat::int(rng.int(-5, 5)),
+        7 => if rng.chance(0.6) { Rat::ZERO } else { Rat::int(rng.nzint(5)) },
+        8 => Rat::int(if rng.bool() { 1 } else { -1 }),
+        _ => Rat::new(rng.int(-6, 6) as i128, 2),
+    }
+}
+const STYLE_NAMES: [&str; 10] = ["int9", "frac", "sparse", "pm1", "big", "dyadic", "f-int5", "f-sparse", "f-pm1", "f-half"];
+
+fn gen_m<M: MF>(rng: &mut Rng, style: u32) -> M {
+    if M::is_complex() { let re = gen_rat(rng, style); let im = gen_rat(rng, style); M::parts(re, im) }
+    else { M::parts(gen_rat(rng, style), Rat::ZERO) }
+}
+
+/// list of exactly `len` coefficients; with some probability zero the top, the bottom, or everything
+/// (leading-zero lists exercise trim / is_zero / "degree" bookkeeping without trimming)
+fn gen_list<M: MF>(rng: &mut Rng, len: usize, style: u32) -> Vec<M> {
+    let mut v: Vec<M> = (0..len).map(|_| gen_m::<M>(rng, style)).collect();
+    if len > 0 {
+        let r = rng.below(100);
+        if r < 18 { let t = rng.usize(1, len); for i in len - t..len { v[i] = M::zero(); } }
+        else if r < 28 { let t = rng.usize(1, len); for i in 0..t { v[i] = M::zero(); } }
+        else if r < 32 { for i in 0..len { v[i] = M::zero(); } }
+    }
+    v
+}
+
+fn gen_point<M: MF>(rng: &mut Rng, float: bool, trivial: bool) -> M {
+    let r = |rng: &mut Rng| -> Rat {
+        if trivial { return Rat::int(rng.int(-1, 1)); }
+        if float {
+            match rng.below(4) { 0 => Rat::int(rng.int(-3, 3)), 1 => Rat::new(rng.int(-4, 4) as i128, 2), 2 => Rat::int(rng.int(-1, 1)), _ => Rat::new(rng.int(-5, 5) as i128, 4) }
+        } else {
+            match rng.below(3) { 0 => Rat::int(rng.int(-6, 6)), 1 => Rat::new(rng.int(-10, 10) as i128, rng.int(1, 5) as i128), _ => Rat::new(rng.int(-9, 9) as i128, 1i128 << rng.int(0, 4)) }
+        }
+    };
+    if M::is_complex() { let re = r(rng); let im = r(rng); M::parts(re, im) } else { M::parts(r(rng), Rat::ZERO) }
+}
+
+fn gen_case<M: MF>(rng: &mut Rng, la: usize, lb: usize, float: bool) -> (Case<M>, &'static str) {
+    let style = if float { 6 + rng.below(4) as u32 } else { rng.below(6) as u32 };
+    let a = gen_list::<M>(rng, la, style);
+    let b = gen_list::<M>(rng, lb, style);
+    let lc = rng.usize(0, 4);
+    let c = gen_list::<M>(rng, lc, if float { 6 } else { style });
+    let s = match rng.below(8) { 0 => M::zero(), 1 => M::one(), 2 => M::zero() - M::one(), _ => gen_m::<M>(rng, if float { 6 } else { style }) };
+    // xs[0] is drawn from {-1,0,1}(+i{-1,0,1}) so that the float certificate always holds for at least one point
+    let xs: Vec<M> = (0..NPOINTS).map(|i| gen_point::<M>(rng, float, i == 0)).collect();
+    (Case { a, b, c, s, xs }, STYLE_NAMES[style as usize])
+}
+
+/// all coefficient lists of length 0..=maxlen over an alphabet, deterministic order
+fn all_lists<M: MF>(alpha: &[M], maxlen: usize) -> Vec<Vec<M>> {
+    let mut out: Vec<Vec<M>> = vec![vec![]];
+    let mut prev: Vec<Vec<M>> = vec![vec![]];
+    for _ in 0..maxlen {
+        let mut next = Vec::with_capacity(prev.len() * alpha.len());
+        for p in &prev { for a in alpha { let mut q = p.clone(); q.push(*a); next.push(q); } }
+        out.extend(next.iter().cloned());
+        prev = next;
+    }
+    out
+}
+
+struct Sweep<M> { name: &'static str, lists: Vec<Vec<M>>, scalars: Vec<M>, xs: Vec<M> }
+
+fn sweep_real(name: &'static str, lo: i64, hi: i64, maxlen: usize) -> Sweep<Rat> {
+    let alpha: Vec<Rat> = (lo..=hi).map(Rat::int).collect();
+    Sweep {
+        name,
+        lists: all_lists(&alpha, maxlen),
+        scalars: vec![Rat::int(2), Rat::int(-1), Rat::ZERO, Rat::int(3)],
+        xs: vec![Rat::ZERO, Rat::ONE, Rat::int(-1), Rat::int(2), Rat::new(-1, 2)],
+    }
+}
+fn sweep_gauss(name: &'static str, maxlen: usize) -> Sweep<CRat> {
+    let z = |a: i64, b: i64| CRat::new(Rat::int(a), Rat::int(b));
+    let alpha = vec![z(0, 0), z(1, 0), z(-1, 0), z(0, 1), z(0, -1)];
+    Sweep {
+        name,
+        lists: all_lists(&alpha, maxlen),
+        scalars: vec![z(2, 0), z(0, 1), z(0, 0), z(1, -1)],
+        xs: vec![z(0, 0), z(0, 1), z(-1, 0), z(1, 1), CRat::new(Rat::new(1, 2), Rat::new(-1, 2))],
+    }
+}
+fn sweep_case<M: MF>(sw: &Sweep<M>, ia: usize, ib: usize) -> Case<M> {
+    let n = sw.lists.len();
+    Case {
+        a: sw.lists[ia].clone(),
+        b: sw.lists[ib].clone(),
+        c: sw.lists[(ia * 7 + ib * 13 + 5) % n].clone(),
+        s: sw.scalars[(ia + ib) % sw.scalars.len()],
+        xs: sw.xs.clone(),
+    }
+}
+
+// ---------------------------------------------------------------------------------------------
+// entry point
+// ---------------------------------------------------------------------------------------------
+
+pub fn run(ctx: &Ctx) -> Report {
+    // exhaustive sweeps (seed independent): every ordered pair of coefficient lists over a small alphabet
+    let mut real_sweeps = vec![sweep_real("sweep{-1,0,1}len<=4", -1, 1, 4)];
+    if !ctx.quick() { real_sweeps.push(sweep_real("sweep{-2..2}len<=3", -2, 2, 3)); }
+    let gauss_sweeps = vec![sweep_gauss("sweep{0,+-1,+-i}len<=3", 3)];
+    // unit table for the sweeps: (kind, sweep index, index of a); each unit runs all b
+    let mut eunits: Vec<(u8, usize, usize)> = vec![];
+    for (k, sw) in real_sweeps.iter().enumerate() { for ia in 0..sw.lists.len() { eunits.push((0, k, ia)); } }
+    for (k, sw) in gauss_sweeps.iter().enumerate() { for ia in 0..sw.lists.len() { eunits.push((1, k, ia)); } }
+    let ne = eunits.len() as u64;
+    // random part: unit r -> length pair (r%10, r/10%10), i.e. every pair of lengths 0..=9 in every round
+    let npairs = ((MAXLEN + 1) * (MAXLEN + 1)) as u64;
+    let rounds = ctx.vol(100, 3000);
+    let nrand = npairs * rounds;
+    const DRAWS: usize = 4;
+
+    let stats = par_run(ctx, TAG, ne + nrand, |u, rng, st| {
+        if u < ne {
+            let (kind, k, ia) = eunits[u as usize];
+            if kind == 0 {
+                let sw = &real_sweeps[k];
+                for ib in 0..sw.lists.len() {
+                    let cs = sweep_case(sw, ia, ib);
+                    judge::<Rat>(st, sw.name, &cs);
+                    judge::<f64>(st, sw.name, &cs);
+                }
+            } else {
+                let sw = &gauss_sweeps[k];
+                for ib in 0..sw.lists.len() {
+                    let cs = sweep_case(sw, ia, ib);
+                    judge::<CRat>(st, sw.name, &cs);
+                    judge::<Cmplx>(st, sw.name, &cs);
+                }
+            }
+        } else {
+            let r = u - ne;
+            let la = (r % (MAXLEN as u64 + 1)) as usize;
+            let lb = ((r / (MAXLEN as u64 + 1)) % (MAXLEN as u64 + 1)) as usize;
+            for _ in 0..DRAWS {
+                let (cs, cl) = gen_case::<Rat>(rng, la, lb, false);
+                judge::<Rat>(st, cl, &cs);
+                let (cs, cl) = gen_case::<CRat>(rng, la, lb, false);
+                judge::<CRat>(st, cl, &cs);
+                let (cs, cl) = gen_case::<Rat>(rng, la, lb, true);
+                judge::<f64>(st, cl, &cs);
+                // the float-style data are also valid exact cases: same data through Rat (differential across types)
+                judge::<Rat>(st, cl, &cs);
+                let (cs, cl) = gen_case::<CRat>(rng, la, lb, true);
+                judge::<Cmplx>(st, cl, &cs);
+                judge::<CRat>(st, cl, &cs);
+            }
+        }
+    });
+
+    let mut rep = Report::new(stats,
+        "cases = (a,b,c,s,x[0..5]): (1) exhaustive, seed-independent: every ordered pair (a,b) of coefficient lists of length 0..4 over {-1,0,1} through Rat and f64 (thorough: also length 0..3 over {-2..2}) and of length 0..3 over {0,1,-1,i,-i} through CRat and Complex<f64>, with c, s cycled deterministically and x in a fixed 5-point set; (2) random: every ordered pair of lengths (0..9)x(0..9) (empty included, degrees 0..8) in every round, 4 draws per type per unit, coefficient styles int/fraction/sparse/+-1/big/dyadic (exact types) and int/sparse/+-1/half-integer (float types, each also replayed through the exact type), leading/trailing/all-zero blocks injected, scalar in {0,1,-1,random}, 5 evaluation points. Per case: new/clone/coeffs/size/degree/index/is_zero/eval/neg/scalar*/derivative/derivative_n(k=0..deg+1)/derivative_at/trim/quadratic/cubic on a and b; +,-,* borrowed, owned and commuted; values of every result at the points vs the same combination of exact operand values; linearity, product rule, distributivity, associativity, cancellation via composed library calls; all compared exactly with an independent coefficient-list model. Non-trivial: both operands non-empty, max length >= 2, not both identically zero; distinct = distinct (type,a,b,c,s,xs) hashes");
+    rep.assumptions = vec![
+        "float (f64, Complex<f64>) checks are judged only under an exactness certificate computed from the inputs alone: (1-norm mass bound of all intermediates) x (dyadic grid of coefficients^4 and of x^degree) <= 2^52; uncertified checks are counted under skipped-check:*:exactness-not-certified, never judged; no tolerance is used anywhere".into(),
+        "sizes: for non-empty operands size(a+-b)=max, size(a*b)=la+lb-1, size(D^k a)=la-k, size(s*a)=size(-a)=la are demanded (signature ...:wrong-size when only the length differs); a zero result whose length the property does not fix (product with an empty operand, derivative of a constant, order deg+1) may be empty or all-zero".into(),
+        "undefined by the property and therefore accepted (refusal or zero result): eval/derivative/derivative_at/trim of the empty polynomial, derivative_at of order deg+1, degree() of the empty polynomial; a non-zero returned value is still flagged (empty-not-zero)".into(),
+        "Rat overflow in the model or the library => case / check skipped (counted), never judged".into(),
+    ];
+    rep.min_nontrivial = if ctx.quick() { 20_000 } else { 200_000 };
+    // coverage demand: all 100 ordered length pairs seen for each of the four element types
+    for k in [<Rat as Elem>::K_LENPAIRS, <CRat as Elem>::K_LENPAIRS, <f64 as Elem>::K_LENPAIRS, <Cmplx as Elem>::K_LENPAIRS] {
+        let n = rep.stats.sets.get(k).map(|s| s.len()).unwrap_or(0) as u64;
+        if n < npairs && ctx.only_unit.is_none() { rep.inconclusive.push(format!("coverage: only {} of {} length pairs for {}", n, npairs, k)); }
+    }
+    let mut ex = J::obj();
+    ex.set("exhaustive_parts", J::Arr(vec![
+        J::s("all ordered pairs of coefficient lists of length 0..4 over {-1,0,1} (121^2 pairs) at Rat and f64"),
+        J::s("all ordered pairs of coefficient lists of length 0..3 over {0,1,-1,i,-i} (156^2 pairs) at CRat and Complex<f64>"),
+        J::s("thorough only: all ordered pairs of lists of length 0..3 over {-2..2} (156^2 pairs) at Rat and f64"),
+        J::s("all 100 ordered length pairs (0..9)x(0..9) in every random round; derivative orders 0..deg+1 for every operand"),
+    ]));
+    ex.set("random_rounds", J::UInt(rounds));
+    ex.set("sweep_units", J::UInt(ne));
+    rep.extra = ex;
+    rep
 }
